@@ -96,6 +96,24 @@ def build(rng, tier):
         inst = f"sp3_{j}"
         ops = [f"eng new {inst} sp3 par {t}"] + engcheck.load_ops(inst, inp) + [f"eng runpp {inst} {t}", f"eng dump {inst}", f"eng iters {inst}"]
         cases.append(engcheck.Case("sp3", inst, ops, {"inp": inp, "kind": "sparse-keyed-index", "threads": t}))
+    # forced shape "unique-index scan in odd pools": a simple join whose clauses are matched on ALL their columns - `both(x, y) <-- a(x, y), b(x, y)` - so the iterated side
+    # is walked through the parallel whole-index iterator of a UNIQUE index (CRelFullIndex::c_iter_all, one rayon task per DashMap shard); hundreds of keys (every shard is
+    # hit) in pools whose size does not divide the shard count: every row must be visited whatever the split of the shards over the workers
+    uq = {"rels": [{"arity": 2}, {"arity": 2}, {"arity": 2}, {"arity": 1}, {"arity": 2}],
+          "rules": [{"heads": [(2, [("var", 0), ("var", 1)])], "body": [("cl", 0, [("v", 0), ("v", 1)], []), ("cl", 1, [("v", 0), ("v", 1)], [])]},
+                    {"heads": [(4, [("var", 0), ("var", 1)])], "body": [("cl", 2, [("v", 0), ("v", 1)], []), ("cl", 3, [("v", 0)], [])]}]}
+    progs["uq"] = uq
+    mods.append(("uq", eng.rs_module("uq", uq, macro="ascent_par")))
+    for j, t in enumerate([3, 5, 6, 7, 12, 3] if tier == "quick" else [3, 5, 6, 7, 9, 10, 11, 12, 13, 15] * 2):
+        r2 = rng.fork(f"uq{j}")
+        n = r2.range(150, 400)
+        a = [(x * r2.range(1, 3) + j, x % 7) for x in range(n)]
+        a = list(dict.fromkeys(a))
+        b = [t2 for t2 in a if not r2.chance(1, 10)] + [(x + 100000, 1) for x in range(20)]
+        inp = {0: r2.shuffle(a), 1: r2.shuffle(b), 3: [(x,) for x, _ in a if not r2.chance(1, 8)]}
+        inst = f"uq_{j}"
+        ops = [f"eng new {inst} uq par {t}"] + engcheck.load_ops(inst, inp) + [f"eng runpp {inst} {t}", f"eng dump {inst}", f"eng iters {inst}"]
+        cases.append(engcheck.Case("uq", inst, ops, {"inp": inp, "kind": "unique-index-scan-odd-pool", "threads": t}))
     # forced shape "hot keys": a few lattice keys, each improved by hundreds of DIFFERENT incomparable contributions in ONE iteration (set union): every worker's join must be
     # an atomic read-modify-write of the row (a join computed on a private copy and written back loses the neighbours' contributions)
     hot = {"rels": [{"arity": 2}, {"arity": 2, "lat": "set"}],
